@@ -78,9 +78,9 @@ EqT(a, b, strict) ==
             /\ \A j \in 1..Len(b.c) : \E i \in 1..Len(a.c) : EqT(a.c[i], b.c[j], FALSE)
   ELSE IF a.t # b.t THEN FALSE
   ELSE IF a.t \in {"str", "none", "other", "range", "ipnet", "iter", "cls", "badit"} THEN a.v = b.v
-  ELSE IF a.t \in {"list", "tuple", "ntuple"} \/ (a.t = "dict" /\ strict)
+  ELSE IF a.t \in {"list", "tuple", "ntuple"} \/ (a.t \in {"dict", "cmap"} /\ strict)
        THEN Len(a.c) = Len(b.c) /\ \A i \in 1..Len(a.c) : EqT(a.c[i], b.c[i], strict)
-  ELSE IF a.t = "dict"
+  ELSE IF a.t \in {"dict", "cmap"}
        THEN /\ Len(a.c) = Len(b.c)
             /\ \A i \in 1..Len(a.c) : \E j \in 1..Len(b.c) : EqT(a.c[i], b.c[j], strict)
   ELSE IF a.t = "item" THEN a.v = b.v /\ a.d = b.d /\ EqT(a.c[1], b.c[1], strict)
@@ -90,7 +90,7 @@ EqCall(a, b, strict) == Len(a) = Len(b) /\ \A i \in 1..Len(a) : EqT(a[i], b[i], 
 \* the statement promises rounding inside lists, tuples, sets and dicts; for containers that cannot be rebuilt
 \* generically (range, namedtuple) it only promises that the call does not fail: no merging is demanded
 RECURSIVE HasOpaque(_)
-HasOpaque(x) == x.t \in {"range", "ntuple", "ipnet", "iter"} \/ \E i \in 1..Len(x.c) : HasOpaque(x.c[i])
+HasOpaque(x) == x.t \in {"range", "ntuple", "ipnet", "iter", "cmap"} \/ \E i \in 1..Len(x.c) : HasOpaque(x.c[i])
 RECURSIVE HasSet(_)
 HasSet(x) == x.t \in {"set", "fset"} \/ \E i \in 1..Len(x.c) : HasSet(x.c[i])
 \* the textual / pickled form of a set depends on its iteration order, which the statement does not fix:
